@@ -221,6 +221,9 @@ def table():
             rs = [r for r in rs if ":corr" not in str(r["key"])] + [r for r in rs if ":corr" in str(r["key"])]
             for r in rs[:2]:
                 keys.append(f"{k} → `{r['key']}`")
+        if m.get("obsolete"):
+            print(f"| {sid} | {m['property']} | {m['breaks'][:170].replace('|','/').replace(chr(10),' ')} | {m['needs_to_manifest'][:130].replace('|','/').replace(chr(10),' ')} | OBSOLETE: {m['obsolete'][:260]} |")
+            continue
         print(f"| {sid} | {m['property']} | {m['breaks'][:170].replace('|','/').replace(chr(10),' ')} | {m['needs_to_manifest'][:130].replace('|','/').replace(chr(10),' ')} | "
               f"{'; '.join(keys) if keys else ('MISSED: ' + ','.join(missed) if missed else 'not run')} |")
 
